@@ -61,7 +61,10 @@ def allclose_rules(repo, res):
     D = f"unyt_array({desired})"
     want_act = f"{A}.value"
     want_des = f"{D}.in_units({A}.units).value"
-    want_rt = f"unyt_array({rtol}).value"
+    RT = f"unyt_array({rtol})"
+    # the relative tolerance handed to NumPy is a pure number: a tolerance given in a scaled dimensionless unit (5
+    # percent, 300 ppm) must be reduced to the unit `dimensionless`, not stripped of its unit (5 percent is 0.05)
+    rt_forms = {f"{RT}.in_units('dimensionless').value", f"{RT}.to_value('dimensionless')", f"{RT}.in_units(dimensionless).value", f"float({RT}.in_units('dimensionless'))", f"{RT}.in_base().value", f"{RT}.value * {RT}.units.base_value", f"{RT}.units.base_value * {RT}.value"}
     ok_wrap = all(len(args) == 4 and args[0].startswith(A) and args[1].startswith(D) for _, args, _ in finals)
     res.check(ok_wrap, "wrap-inputs", fn.where(), "both inputs are wrapped as unyt arrays first (bare data become dimensionless)", rid=r1)
     res.check(all(args[1] == want_des for _, args, _ in finals), "desired-converted", fn.where(), "desired must be converted into actual's unit before the comparison", want_des, sorted({args[1] for _, args, _ in finals}), rid=r1)
@@ -69,8 +72,10 @@ def allclose_rules(repo, res):
     bare_route = [(x, args) for x, args, _ in finals if x.has(f"isinstance({atol}, unyt_array)", False)]
     ok_at = bool(unit_route) and all(args[3] == f"{atol}.in_units({A}.units).value" for _, args in unit_route) and bool(bare_route) and all(args[3].endswith(f".in_units({A}.units).value") and args[3].startswith(f"unyt_quantity({atol}, ") for _, args in bare_route)
     res.check(ok_at, "atol-converted", fn.where(), "atol must be converted into actual's unit before the comparison", f"<atol>.in_units({A}.units).value", sorted({args[3] for _, args, _ in finals}), rid=r1)
-    stripped = all(args[0] == want_act and args[1].endswith(".value") and args[2] == want_rt and args[3].endswith(".value") for _, args, _ in finals)
-    res.check(stripped, "strip-after-convert", fn.where(), "units are stripped only after all conversions (the stripped value is the converted one)", [want_act, want_des, want_rt], [args for _, args, _ in finals][:1], rid=r1)
+    stripped = all(args[0] == want_act and args[1].endswith(".value") and args[2].startswith(RT) and args[3].endswith(".value") for _, args, _ in finals)
+    res.check(stripped, "strip-after-convert", fn.where(), "units are stripped only after all conversions (the stripped value is the converted one)", [want_act, want_des, RT + "..."], [args for _, args, _ in finals][:1], rid=r1)
+    got_rt = sorted({args[2] for _, args, _ in finals})
+    res.check(all(g in rt_forms for g in got_rt), "rtol-reduced", fn.where(), "the relative tolerance is stripped of its unit without being reduced to a pure number: rtol = 5 percent is used as 5, so allclose_units(1 m, 3 m, rtol=5 percent) is True and the verdict changes when the tolerance is re-expressed", f"{RT}.in_units('dimensionless').value", got_rt, rid=r1)
     res.check(all(kw == [None] for _, _, kw in finals), "final-compare", fn.where(), "the verdict is np.allclose(actual, desired, rtol, atol, **kwargs) on the converted values", rid=r1)
 
     # R2: the unit given to a bare atol
@@ -88,6 +93,11 @@ def allclose_rules(repo, res):
         ok &= names == {"UnitOperationError", "UnitConversionError"} and len(h.body) == 1 and norm(h.body[0]) == "return False"
     # every conversion happens inside such a try
     convs = [c for c in ast.walk(fn.node) if isinstance(c, ast.Call) and isinstance(c.func, ast.Attribute) and c.func.attr in ("in_units", "to")]
+    # the reduction of the relative tolerance to the unit `dimensionless` cannot fail: it is reached only after the
+    # tolerance's unit was found dimensionless (allclose:rtol below)
+    from rules.c11 import _names_through_locals
+
+    convs = [c for c in convs if not (rtol in ({x.id for x in ast.walk(c.func.value) if isinstance(x, ast.Name)} | _names_through_locals(fn, c.func.value)) and c.args and isinstance(c.args[0], ast.Constant) and c.args[0].value in ("dimensionless", ""))]
     guarded = [c for t in ast.walk(fn.node) if isinstance(t, ast.Try) for st in t.body for c in ast.walk(st) if isinstance(c, ast.Call)]
     ok &= bool(convs) and all(any(c is g for g in guarded) for c in convs)
     res.check(ok, "allclose:handlers", fn.where(), "exactly the unit errors are turned into a False verdict, and every conversion is covered by such a handler", rid=r3)
